@@ -114,6 +114,15 @@ func safeNames(names []string) []string {
 	return out
 }
 
+// qualifiedNames quotes each dotted object name of a list.
+func qualifiedNames(names []string) []string {
+	out := make([]string, len(names))
+	for i, n := range names {
+		out[i] = safeQualifiedName(n)
+	}
+	return out
+}
+
 // safeQualifiedName quotes a dotted object name ("schema.table") part by part;
 // the parser stores qualified names joined with dots.
 func safeQualifiedName(name string) string {
@@ -925,7 +934,7 @@ func (c *CreateTableStatement) SQL() string {
 	if c.IfNotExists {
 		sb.WriteString("IF NOT EXISTS ")
 	}
-	sb.WriteString(c.Name)
+	sb.WriteString(safeQualifiedName(c.Name))
 	sb.WriteString(" (")
 
 	parts := make([]string, 0, len(c.Columns)+len(c.Constraints))
@@ -942,7 +951,7 @@ func (c *CreateTableStatement) SQL() string {
 
 	if len(c.Inherits) > 0 {
 		sb.WriteString(" INHERITS (")
-		sb.WriteString(strings.Join(c.Inherits, ", "))
+		sb.WriteString(strings.Join(qualifiedNames(c.Inherits), ", "))
 		sb.WriteString(")")
 	}
 
@@ -971,9 +980,9 @@ func (c *CreateIndexStatement) SQL() string {
 	if c.IfNotExists {
 		sb.WriteString("IF NOT EXISTS ")
 	}
-	sb.WriteString(c.Name)
+	sb.WriteString(safeQualifiedName(c.Name))
 	sb.WriteString(" ON ")
-	sb.WriteString(c.Table)
+	sb.WriteString(safeQualifiedName(c.Table))
 
 	if c.Using != "" {
 		sb.WriteString(" USING ")
@@ -983,7 +992,7 @@ func (c *CreateIndexStatement) SQL() string {
 	sb.WriteString(" (")
 	cols := make([]string, len(c.Columns))
 	for i, col := range c.Columns {
-		s := col.Column
+		s := safeName(col.Column)
 		if col.Direction != "" {
 			s += " " + col.Direction
 		}
@@ -1028,7 +1037,7 @@ func (d *DropStatement) SQL() string {
 	if d.IfExists {
 		sb.WriteString("IF EXISTS ")
 	}
-	sb.WriteString(strings.Join(d.Names, ", "))
+	sb.WriteString(strings.Join(qualifiedNames(d.Names), ", "))
 	if d.CascadeType != "" {
 		sb.WriteString(" ")
 		sb.WriteString(d.CascadeType)
@@ -1043,7 +1052,7 @@ func (t *TruncateStatement) SQL() string {
 	sb := getBuilder()
 	defer putBuilder(sb)
 	sb.WriteString("TRUNCATE TABLE ")
-	sb.WriteString(strings.Join(t.Tables, ", "))
+	sb.WriteString(strings.Join(qualifiedNames(t.Tables), ", "))
 	if t.RestartIdentity {
 		sb.WriteString(" RESTART IDENTITY")
 	} else if t.ContinueIdentity {
@@ -1137,10 +1146,10 @@ func (c *CreateViewStatement) SQL() string {
 	if c.IfNotExists {
 		sb.WriteString("IF NOT EXISTS ")
 	}
-	sb.WriteString(c.Name)
+	sb.WriteString(safeQualifiedName(c.Name))
 	if len(c.Columns) > 0 {
 		sb.WriteString(" (")
-		sb.WriteString(strings.Join(c.Columns, ", "))
+		sb.WriteString(strings.Join(safeNames(c.Columns), ", "))
 		sb.WriteString(")")
 	}
 	sb.WriteString(" AS ")
@@ -1162,10 +1171,10 @@ func (c *CreateMaterializedViewStatement) SQL() string {
 	if c.IfNotExists {
 		sb.WriteString("IF NOT EXISTS ")
 	}
-	sb.WriteString(c.Name)
+	sb.WriteString(safeQualifiedName(c.Name))
 	if len(c.Columns) > 0 {
 		sb.WriteString(" (")
-		sb.WriteString(strings.Join(c.Columns, ", "))
+		sb.WriteString(strings.Join(safeNames(c.Columns), ", "))
 		sb.WriteString(")")
 	}
 	sb.WriteString(" AS ")
@@ -1190,7 +1199,7 @@ func (r *RefreshMaterializedViewStatement) SQL() string {
 	if r.Concurrently {
 		sb.WriteString("CONCURRENTLY ")
 	}
-	sb.WriteString(r.Name)
+	sb.WriteString(safeQualifiedName(r.Name))
 	if r.WithData != nil {
 		if *r.WithData {
 			sb.WriteString(" WITH DATA")
@@ -1211,13 +1220,13 @@ func (m *MergeStatement) SQL() string {
 	sb.WriteString(tableRefSQL(&m.TargetTable))
 	if m.TargetAlias != "" {
 		sb.WriteString(" ")
-		sb.WriteString(m.TargetAlias)
+		sb.WriteString(safeName(m.TargetAlias))
 	}
 	sb.WriteString(" USING ")
 	sb.WriteString(tableRefSQL(&m.SourceTable))
 	if m.SourceAlias != "" {
 		sb.WriteString(" ")
-		sb.WriteString(m.SourceAlias)
+		sb.WriteString(safeName(m.SourceAlias))
 	}
 	sb.WriteString(" ON ")
 	sb.WriteString(exprSQL(m.OnCondition))
@@ -1590,7 +1599,7 @@ func onConflictSQL(oc *OnConflict) string {
 func columnDefSQL(c *ColumnDef) string {
 	sb := getBuilder()
 	defer putBuilder(sb)
-	sb.WriteString(c.Name)
+	sb.WriteString(safeName(c.Name))
 	sb.WriteString(" ")
 	sb.WriteString(c.Type)
 	for _, con := range c.Constraints {
@@ -1627,21 +1636,21 @@ func tableConstraintSQL(tc *TableConstraint) string {
 	defer putBuilder(sb)
 	if tc.Name != "" {
 		sb.WriteString("CONSTRAINT ")
-		sb.WriteString(tc.Name)
+		sb.WriteString(safeName(tc.Name))
 		sb.WriteString(" ")
 	}
 	switch tc.Type {
 	case "PRIMARY KEY":
 		sb.WriteString("PRIMARY KEY (")
-		sb.WriteString(strings.Join(tc.Columns, ", "))
+		sb.WriteString(strings.Join(safeNames(tc.Columns), ", "))
 		sb.WriteString(")")
 	case "UNIQUE":
 		sb.WriteString("UNIQUE (")
-		sb.WriteString(strings.Join(tc.Columns, ", "))
+		sb.WriteString(strings.Join(safeNames(tc.Columns), ", "))
 		sb.WriteString(")")
 	case "FOREIGN KEY":
 		sb.WriteString("FOREIGN KEY (")
-		sb.WriteString(strings.Join(tc.Columns, ", "))
+		sb.WriteString(strings.Join(safeNames(tc.Columns), ", "))
 		sb.WriteString(") ")
 		if tc.References != nil {
 			sb.WriteString(referenceSQL(tc.References))
@@ -1660,10 +1669,10 @@ func referenceSQL(r *ReferenceDefinition) string {
 	sb := getBuilder()
 	defer putBuilder(sb)
 	sb.WriteString("REFERENCES ")
-	sb.WriteString(r.Table)
+	sb.WriteString(safeQualifiedName(r.Table))
 	if len(r.Columns) > 0 {
 		sb.WriteString(" (")
-		sb.WriteString(strings.Join(r.Columns, ", "))
+		sb.WriteString(strings.Join(safeNames(r.Columns), ", "))
 		sb.WriteString(")")
 	}
 	if r.OnDelete != "" {
@@ -1702,7 +1711,7 @@ func mergeActionSQL(a *MergeAction) string {
 	case "UPDATE":
 		sets := make([]string, len(a.SetClauses))
 		for i, s := range a.SetClauses {
-			sets[i] = s.Column + " = " + exprSQL(s.Value)
+			sets[i] = safeQualifiedName(s.Column) + " = " + exprSQL(s.Value)
 		}
 		return "UPDATE SET " + strings.Join(sets, ", ")
 	case "INSERT":
@@ -1713,7 +1722,7 @@ func mergeActionSQL(a *MergeAction) string {
 		} else {
 			if len(a.Columns) > 0 {
 				sb.WriteString(" (")
-				sb.WriteString(strings.Join(a.Columns, ", "))
+				sb.WriteString(strings.Join(safeNames(a.Columns), ", "))
 				sb.WriteString(")")
 			}
 			if len(a.Values) > 0 {
